@@ -11,3 +11,8 @@ package jsonapi
 //@ ensures lt: (result < 0) == bytesLt(a, b)
 //@ ensures eq: (result == 0) == bytesEq(a, b)
 //@ ensures gt: (result > 0) == bytesLt(b, a)
+
+//@ func sort.Strings
+//@ flag assumed
+//@ modifies elems[string](x)
+//@ ensures sorted: forall i int, j int :: 0 <= i && i <= j && j < len(x) ==> x[i] <= x[j]
